@@ -3,13 +3,17 @@ import Driver.Util
 /-!
 Protocol (one line = one case = frames + an operation history on one fresh file):
 
-`vmap <nframes> {<ncols> <col>* <nrows> {<eid> <nid> <hex>*}*}* <nops> {op}*`
+`vmap <nframes> {<ncols> <col>* <nobj> <objcol>* <nrows> {<eid> <nid> <hex>*}*}* <nops> {op}*`
+(`objcol`: a column of dtype `object`, which HDF5 cannot store)
 
 strings travel as `s:<text>` (so that the empty string is a token), an absent optional argument as `-`.
 ops:  `G name frame` | `V state geom var frame cols loc` (cols = `-` or `<n> name*`; loc = `-` or a number)
-    | `S kind geom <n> id* frame nameOk name` | `L geom` | `I <nchains> {<n> impop*}*`
+    | `S kind geom <n> id* frame nameOk name` | `L geom` | `I <nchains> {<n> impop*}*` | `X` (a call the model does not
+      describe and that leaves geometries and variables alone: answer `x`)
 impop: `M geom state?` | `C` | `J var state? cols` | `N set` | `E set`.
-Answer: one segment per op, joined by `|`.
+Answer: one segment per op, joined by `|`.  What is compared is what the property speaks about: whether a call
+raised (not the exception class), the stored geometries / variables (set members as a set, nodal variable rows by node id,
+groups under /VMAP/VARIABLES only when they hold a variable) and, exactly, every frame the importer returns.
 -/
 namespace PylifeVerif.Driver
 open PylifeVerif.Vmap
@@ -18,7 +22,9 @@ open PylifeVerif.Vmap
 structure FBits where
   bits : Nat
 
-instance : BEq FBits := ⟨fun a b => Float.ofBits a.bits.toUInt64 == Float.ofBits b.bits.toUInt64⟩
+instance : Cell FBits where
+  beq a b := Float.ofBits a.bits.toUInt64 == Float.ofBits b.bits.toUInt64
+  isNull a := (Float.ofBits a.bits.toUInt64).isNaN
 
 def showV (v : FBits) : String :=
   if (Float.ofBits v.bits.toUInt64).isNaN then "nan" else hexOfNat v.bits 16
@@ -61,11 +67,12 @@ def pOptNat : P (Option Nat) := fun s => match s with
 
 def pFrame : P (Frame FBits) := do
   let cols ← pCounted pStr
+  let objs ← pCounted pStr
   let nrows ← pNat
   let rows ← pMany (do
     let e ← pInt; let n ← pInt; let vs ← pMany pVal cols.length
     pure (⟨e, n, vs⟩ : Row FBits)) nrows
-  pure ⟨cols, rows⟩
+  pure ⟨cols, objs, rows⟩
 
 def pImpOp : P ImpOp := do
   let t ← tok
@@ -83,6 +90,7 @@ inductive Op where
   | set (kind : Nat) (geom : String) (ids : List Int) (frame : Nat) (nameOk : Bool) (name : String)
   | list (geom : String)
   | imp (chains : List (List ImpOp))
+  | other
 
 def pOp : P Op := do
   let t ← tok
@@ -96,11 +104,9 @@ def pOp : P Op := do
     pure (.set k g ids f (ok != 0) n)
   | "L" => do let g ← pStr; pure (.list g)
   | "I" => do let cs ← pCounted (pCounted pImpOp); pure (.imp cs)
+  | "X" => pure .other
   | _ => failure
 
-def showErr : Err → String
-  | .key => "KeyError" | .exportErr => "VMAPExportError" | .value => "ValueError"
-  | .apiUse => "APIUseError" | .typeErr => "TypeError"
 
 def commaInts (l : List Int) : String := ",".intercalate (l.map toString)
 def showVals (l : List FBits) : String := ",".intercalate (l.map showV)
@@ -111,13 +117,14 @@ def sortByKey {α} (key : α → String) (l : List α) : List α :=
 def showGeom (p : String × Geometry FBits) : String :=
   let g := p.2
   let els := ",".intercalate (g.elements.map fun e => s!"{e.1}:{e.2.1}:" ++ ".".intercalate (e.2.2.map toString))
-  let sets := ",".intercalate (g.sets.map fun s => s!"{s.kind}:{s.name}:" ++ ".".intercalate (s.ids.map toString))
+  let sets := ",".intercalate (g.sets.map fun s => s!"{s.kind}:{s.name}:" ++ ".".intercalate ((sortU s.ids).map toString))
   s!"[{p.1}:pts={commaInts g.pointIds};nc={g.ncoord};xyz=" ++ "/".intercalate (g.coords.map showVals)
     ++ s!";els={els};sets={sets}]"
 
 def showFile (f : File FBits) : String :=
   let gs := "".intercalate ((sortByKey (·.1) f.geoms).map showGeom)
-  let groups := sortByKey (fun p => p.1 ++ "/" ++ p.2) f.groups
+  let groups := sortByKey (fun p => p.1 ++ "/" ++ p.2)
+    (f.groups.filter (fun p => f.vars.any (fun v => v.1.1 == p.1 && v.1.2.1 == p.2)))
   let showGroup (p : String × String) : String :=
     let vs := sortByKey (fun v => v.1.2.2) (f.vars.filter (fun v => v.1.1 == p.1 && v.1.2.1 == p.2))
     s!"[{p.1}/{p.2}:size={vs.length}" ++ "".intercalate (vs.map fun v =>
@@ -132,37 +139,43 @@ def showFrame (m : List String × MeshRows FBits) : String :=
   "cols=" ++ ",".intercalate m.1 ++ ";rows=" ++ ";".intercalate (m.2.map fun r =>
     s!"{r.1.1}:{r.1.2}:" ++ ",".intercalate (r.2.map showCell))
 
-def emptyFrame : Frame FBits := ⟨[], []⟩
+def emptyFrame : Frame FBits := ⟨[], [], []⟩
 
-def runOps (frames : Array (Frame FBits)) : List Op → Nat → File FBits → List String → List String
-  | [], _, _, acc => acc.reverse
-  | op :: ops, dim, f, acc =>
+def runOps (frames : Array (Frame FBits)) : List Op → File FBits → List String → List String
+  | [], _, acc => acc.reverse
+  | op :: ops, f, acc =>
     let fr (i : Nat) := frames.getD i emptyFrame
-    let st (e : Option Err) := match e with | none => "ok" | some e => "err:" ++ showErr e
+    let st (e : Option Err) := match e with | none => "ok" | some _ => "err"
     match op with
     | .geom n i =>
-      let r := addGeometry dim f n (fr i)
-      runOps frames ops r.1 r.2.1 (s!"{st r.2.2};dim={r.1};{showFile r.2.1}" :: acc)
+      let r := addGeometry f n (fr i)
+      runOps frames ops r.1 (s!"{st r.2};{showFile r.1}" :: acc)
     | .var s g v i c l =>
       let r := addVariable f s g v (fr i) c l
-      runOps frames ops dim r.1 (s!"{st r.2};dim={dim};{showFile r.1}" :: acc)
+      runOps frames ops r.1 (s!"{st r.2};{showFile r.1}" :: acc)
     | .set k g ids i ok n =>
       let r := addSet f k g ids (fr i) ok n
-      runOps frames ops dim r.1 (s!"{st r.2};dim={dim};{showFile r.1}" :: acc)
+      runOps frames ops r.1 (s!"{st r.2};{showFile r.1}" :: acc)
+    | .other => runOps frames ops f ("x" :: acc)
     | .list g =>
+      let gs := "geoms=" ++ ",".intercalate ((sortByKey (·.1) f.geoms).map (·.1))
+      let mine := f.vars.filter (fun v => v.1.2.1 == g)
+      let sts := sortByKey id (mine.map (·.1.1)).eraseDups
+      let vs := ";vars=" ++ ",".intercalate (sts.map fun st =>
+        st ++ ":" ++ ".".intercalate (sortByKey id ((mine.filter (fun v => v.1.1 == st)).map (·.1.2.2))))
       let seg := match f.geoms.lookup g with
-        | none => "err:KeyError"
-        | some geo => "nsets=" ++ ",".intercalate (setNames geo 0) ++ ";esets=" ++ ",".intercalate (setNames geo 1)
-      runOps frames ops dim f (seg :: acc)
+        | none => gs ++ ";err"
+        | some geo => gs ++ ";nsets=" ++ ",".intercalate (setNames geo 0) ++ ";esets=" ++ ",".intercalate (setNames geo 1)
+      runOps frames ops f ((seg ++ vs) :: acc)
     | .imp chains =>
       let rec go (s : Session FBits) : List (List ImpOp) → List String
         | [] => []
         | c :: cs =>
           let r := readFrame f s c
           (match r.2 with
-            | .error (e, i) => s!"err:{showErr e}@{i}"
+            | .error (_, i) => s!"err@{i}"
             | .ok m => showFrame m) :: go r.1 cs
-      runOps frames ops dim f ("/".intercalate (go Session.init chains) :: acc)
+      runOps frames ops f ("/".intercalate (go Session.init chains) :: acc)
 
 def parseCase : P (List (Frame FBits) × List Op) := do
   let frames ← pCounted pFrame
@@ -172,7 +185,7 @@ def parseCase : P (List (Frame FBits) × List Op) := do
 def handleVmap : List String → Option String
   | "vmap" :: rest =>
     match parseCase rest with
-    | some ((frames, ops), []) => some ("|".intercalate (runOps frames.toArray ops 2 File.empty []))
+    | some ((frames, ops), []) => some ("|".intercalate (runOps frames.toArray ops File.empty []))
     | _ => some "parse-error"
   | _ => none
 
